@@ -84,6 +84,10 @@ type c09Plan struct {
 	// BadAddress is only set by the probe scenario (not part of C09's space):
 	// relay 0 is configured with an address for which no builder client can be obtained.
 	BadAddress bool `json:"bad_address,omitempty"`
+	BadKind    int  `json:"bad_kind,omitempty"`
+	// Earlier (probe only): auctions held before the judged one with the same relays, so that a client that
+	// could not be obtained is asked for a second time.
+	Earlier int `json:"earlier,omitempty"`
 }
 
 const (
@@ -564,7 +568,9 @@ func c09Exec(plan any, sched *simrt.Tape) *sim.Outcome {
 			}
 			util.VerifSetBuilderClient(st.addr, st)
 			if pl.BadAddress && i == 0 {
-				rc.Address = "" // FetchBuilderClient: "no address supplied", before any client is built
+				// FetchBuilderClient fails before any I/O: no address; parses as a URL but the builder client
+				// refuses it (public key in the user part is not hex / port is not a number); not a URL at all
+				rc.Address = []string{"", "https://0xnot-a-public-key@relay8.example.com/", "relay.example.com:8o80", "https://relay seven.example.com/"}[pl.BadKind%4]
 			}
 			run.stubs = append(run.stubs, st)
 			pc.Relays = append(pc.Relays, rc)
@@ -583,6 +589,11 @@ func c09Exec(plan any, sched *simrt.Tape) *sim.Outcome {
 		}
 		bcfg := c09BuilderConfigs(pl)
 		simrt.Sleep(ctx, run.ch.SlotStart(c09Slot).Sub(SimEpoch)+pl.CallOff, "c09/until-call")
+		for i := 0; i < pl.Earlier; i++ {
+			ectx, ecancel := context.WithTimeout(ctx, time.Millisecond)
+			_, _ = strat.BuilderBid(ectx, c09Slot, parent, proposer, pc, bcfg)
+			ecancel()
+		}
 		simrt.Go("auction", func() {
 			run.callT = simrt.Now()
 			r, e := strat.BuilderBid(ctx, c09Slot, parent, proposer, pc, bcfg)
@@ -915,6 +926,8 @@ func init() {
 		sim.Register(&sim.Scenario{Property: "C09PROBE", Name: "unobtainable-client-" + st, Exec: c09Exec, Gen: func(p *simrt.Tape) any {
 			pl := c09GenFor(p, &c09Plan{Strategy: st}).(*c09Plan)
 			pl.BadAddress = true
+			pl.BadKind = p.Pick(4)
+			pl.Earlier = p.Pick(3)
 			return pl
 		}})
 	}
